@@ -93,6 +93,9 @@ pub fn alphabet(table: &Table, f: &FieldDef, budget: usize) -> Vec<Val> {
                         let mut w: Vec<char> = word(*n).chars().collect();
                         w[1] = '\0';
                         out.push(Val::Text(w.into_iter().collect()));
+                        let mut w: Vec<char> = word(*n).chars().collect();
+                        w[0] = '\0';
+                        out.push(Val::Text(w.into_iter().collect()));
                     }
                     if *n >= 2 {
                         out.push(Val::Text(word(*n - 1))); // shorter than the field: not canonical
@@ -109,6 +112,7 @@ pub fn alphabet(table: &Table, f: &FieldDef, budget: usize) -> Vec<Val> {
                     out.push(Val::Text(all.chars().skip(130).take(99).collect()));
                     out.push(Val::Text("A\0B".into()));
                     out.push(Val::Text("AB\0".into()));
+                    out.push(Val::Text("\0AB".into()));
                     // CP437 bytes c9 bb / c3 a4: also well-formed UTF-8
                     out.push(Val::Text("\u{2554}\u{2557}".into()));
                     out.push(Val::Text("A\u{251c}\u{f1}".into()));
@@ -121,6 +125,7 @@ pub fn alphabet(table: &Table, f: &FieldDef, budget: usize) -> Vec<Val> {
                     out.push(Val::Text(all_cp437()));
                     out.push(Val::Text("A\0B".into()));
                     out.push(Val::Text("AB\0".into()));
+                    out.push(Val::Text("\0AB".into()));
                     out.push(Val::Text("\u{2554}\u{2557}".into()));
                     out.push(Val::Text("A\u{251c}\u{f1}".into()));
                 }
@@ -297,6 +302,57 @@ pub fn all_present(table: &Table, ty: &TypeDef, pick: usize, vlen: usize) -> Val
             })
             .collect(),
     )
+}
+
+/// Values of positional optional / repeated fields whose first encoded byte equals the first byte
+/// of a tag of the same struct (a present value that "looks like" the next tagged field). Both on
+/// the baseline and on the all-present row of the type.
+pub fn tag_collisions(table: &Table, ty: &TypeDef) -> Vec<Val> {
+    let mut leads: Vec<u8> = ty.fields.iter().filter_map(|f| f.tag).map(|t| if t > 0xff { (t >> 8) as u8 } else { t as u8 }).collect();
+    leads.sort();
+    leads.dedup();
+    let mut out = vec![];
+    for (i, f) in ty.fields.iter().enumerate() {
+        if f.tag.is_some() || f.wrap == Wrap::Bare {
+            continue;
+        }
+        for &lead in &leads {
+            let width = match f.len {
+                Len::Fixed(n) => Some(n),
+                Len::None => match &f.enc {
+                    Enc::Le(n) | Enc::Be(n) => Some(*n),
+                    _ => None,
+                },
+                _ => None,
+            };
+            let leaf: Option<Val> = match (&f.enc, &f.len) {
+                (Enc::Bcd(_), Len::Fixed(n)) if lead >> 4 <= 9 && lead & 0xf <= 9 && *n >= 1 && *n <= 9 => {
+                    let d = ((lead >> 4) as u64) * 10 + (lead & 0xf) as u64;
+                    Some(Val::Int(d * 100u64.pow(*n as u32 - 1)))
+                }
+                (Enc::Le(_), _) if width.is_some() => Some(Val::Int(lead as u64)),
+                (Enc::Be(_), _) if width.is_some() => Some(Val::Int((lead as u64) << (8 * (width.unwrap() - 1)))),
+                (Enc::HexS, Len::Fixed(n)) => Some(Val::Hex(format!("{lead:02x}{}", "5a".repeat(n - 1)))),
+                (Enc::HexS, Len::None) => Some(Val::Hex(format!("{lead:02x}5a"))),
+                (Enc::Txt, Len::Fixed(n)) if lead != 0 => Some(Val::Text(std::iter::once(cp437_char(lead)).chain(std::iter::repeat('A').take(n - 1)).collect())),
+                (Enc::Txt, Len::None) if lead != 0 => Some(Val::Text(format!("{}A", cp437_char(lead)))),
+                // the length byte of a BER-prefixed payload equals the tag when the payload has that many bytes
+                (Enc::Txt, Len::Ber) if lead < 128 && lead > 0 => Some(Val::Text("A".repeat(lead as usize))),
+                (Enc::HexS, Len::Ber) if lead < 128 && lead > 0 => Some(Val::Hex("5a".repeat(lead as usize))),
+                _ => None,
+            };
+            let Some(leaf) = leaf else { continue };
+            for base in [baseline(table, ty), all_present(table, ty, 0, 1)] {
+                let mut v = base;
+                v.fields_mut()[i] = match f.wrap {
+                    Wrap::Opt => Val::some(leaf.clone()),
+                    _ => Val::List(vec![leaf.clone()]),
+                };
+                out.push(v);
+            }
+        }
+    }
+    out
 }
 
 /// Paths to every variable-length leaf (text / hex / raw / utf8 with a non-fixed length), as a
